@@ -99,9 +99,12 @@ Section Legacy.
   Variable tol : bool.
   Variable cx : context.
 
+  (** the fuel given to every [run]; the executable entry points below
+      instantiate it with [parse_fuel s] *)
+  Variable fuel : nat.
+
   Local Notation run := (Parser.run s tol cx).
   Local Notation pc := (Parser.parse_content tol).
-  Local Notation fuel := (Parser.parse_fuel s).
 
   (** ** [get_token] *)
 
@@ -176,7 +179,7 @@ Section Legacy.
     | None => LOk {| lt_node := None; lt_pos := None; lt_len := None |}
     end.
 
-  Definition legacy_get_latex_nodes (ps : pstate) (pos : nat) (b e m : option str) (mx : option nat)
+  Definition legacy_get_latex_nodes_f (ps : pstate) (pos : nat) (b e m : option str) (mx : option nat)
     : lres ltriple :=
     match nodes_state ps b with
     | None => LExn 0
@@ -210,7 +213,7 @@ Section Legacy.
         else LOk (triple_none pos)
     end.
 
-  Definition legacy_get_latex_expression (ps : pstate) (pos : nat) (sb : option bool) : lres ltriple :=
+  Definition legacy_get_latex_expression_f (ps : pstate) (pos : nat) (sb : option bool) : lres ltriple :=
     lift_res (expr_catch sb (pc (run fuel (TExpr ps true true false (negb tol) [] pos))))
              (expr_post ps pos sb).
 
@@ -228,7 +231,7 @@ Section Legacy.
     | None => LOk (triple_none pos)
     end.
 
-  Definition legacy_get_latex_braced_group (ps : pstate) (pos : nat) (bt : str) : lres ltriple :=
+  Definition legacy_get_latex_braced_group_f (ps : pstate) (pos : nat) (bt : str) : lres ltriple :=
     match brace_pair bt with
     | None => LExn 5                                       (* ValueError *)
     | Some (o, c) => lift_res (pc (run fuel (TGroup ps (GDPair o c) false true pos))) (group_post pos)
@@ -252,7 +255,7 @@ Section Legacy.
     | Some _ => LExn 3                                     (* len() of a node *)
     end.
 
-  Definition legacy_get_latex_environment (ps : pstate) (pos : nat) (name : option str) : lres ltriple :=
+  Definition legacy_get_latex_environment_f (ps : pstate) (pos : nat) (name : option str) : lres ltriple :=
     lift_res (pc (run fuel (TGeneral ps single_opts pos))) (env_post name).
 
   (** ** [get_latex_maybe_optional_arg]
@@ -264,7 +267,7 @@ Section Legacy.
     | None => LOk None
     end.
 
-  Definition legacy_get_latex_maybe_optional_arg (ps : pstate) (pos : nat) : lres (option ltriple) :=
+  Definition legacy_get_latex_maybe_optional_arg_f (ps : pstate) (pos : nat) : lres (option ltriple) :=
     lift_res (pc (run fuel (TGroup ps (GDPair [91%N] [93%N]) true true pos))) optarg_post.
 
   (** ** The legacy argument algorithm [MacroStandardArgsParser.parse_args] *)
@@ -288,7 +291,7 @@ Section Legacy.
 
   (** NB [w.get_token(p)] is called WITHOUT the parsing state: it reads under the
       walker's default one, [walker_state cx] *)
-  Fixpoint legacy_args_loop (ps : pstate) (noopt : bool) (amm : option (list (option bool)))
+  Fixpoint legacy_args_loop_f (ps : pstate) (noopt : bool) (amm : option (list (option bool)))
            (j : nat) (a : str) (p : nat) (acc : list (option node))
     : lres (list (option node) * nat) :=
     match a with
@@ -296,11 +299,11 @@ Section Legacy.
     | c :: r =>
         let ips := inner_state ps amm j in
         if N.eqb c 123 then                                                (* '{' *)
-          match legacy_get_latex_expression ips p (Some false) with
+          match legacy_get_latex_expression_f ips p (Some false) with
           | LOk t =>
               match lt_pos t, lt_len t with
               | Some np, Some nl =>
-                  legacy_args_loop ps noopt amm (S j) r (Z.to_nat (Z.of_nat np + nl)) (acc ++ [lt_node t])
+                  legacy_args_loop_f ps noopt amm (S j) r (Z.to_nat (Z.of_nat np + nl)) (acc ++ [lt_node t])
               | _, _ => LExn 3
               end
           | x => lfail x
@@ -308,14 +311,14 @@ Section Legacy.
         else if N.eqb c 91 then                                            (* '[' *)
           if noopt && Nat.ltb p (length s)
              && match nth_error s p with Some ch => is_space ch | None => false end
-          then legacy_args_loop ps noopt amm (S j) r p (acc ++ [None])
+          then legacy_args_loop_f ps noopt amm (S j) r p (acc ++ [None])
           else
-          match legacy_get_latex_maybe_optional_arg ips p with
-          | LOk None => legacy_args_loop ps noopt amm (S j) r p (acc ++ [None])
+          match legacy_get_latex_maybe_optional_arg_f ips p with
+          | LOk None => legacy_args_loop_f ps noopt amm (S j) r p (acc ++ [None])
           | LOk (Some t) =>
               match lt_pos t, lt_len t with
               | Some np, Some nl =>
-                  legacy_args_loop ps noopt amm (S j) r (Z.to_nat (Z.of_nat np + nl)) (acc ++ [lt_node t])
+                  legacy_args_loop_f ps noopt amm (S j) r (Z.to_nat (Z.of_nat np + nl)) (acc ++ [lt_node t])
               | _, _ => LExn 3
               end
           | x => lfail x
@@ -324,23 +327,39 @@ Section Legacy.
           match legacy_get_token (walker_state cx) p None None (Some true) with
           | LOk t =>
               if tokkind_eqb (tk t) TkChar && startswith (targ t) [42%N] then
-                legacy_args_loop ps noopt amm (S j) r (S (tpos t))
+                legacy_args_loop_f ps noopt amm (S j) r (S (tpos t))
                                  (acc ++ [Some (mk_chars ips (tpos t) (S (tpos t)) [42%N])])
-              else legacy_args_loop ps noopt amm (S j) r p (acc ++ [None])
-          | LEOS => legacy_args_loop ps noopt amm (S j) r p (acc ++ [None])   (* fix C16-star-at-eos *)
+              else legacy_args_loop_f ps noopt amm (S j) r p (acc ++ [None])
+          | LEOS => legacy_args_loop_f ps noopt amm (S j) r p (acc ++ [None])   (* fix C16-star-at-eos *)
           | x => lfail x
           end
         else LExn 6                                                         (* LatexWalkerError: unknown kind *)
     end.
 
-  Definition legacy_parse_args (ps : pstate) (a : str) (noopt : bool)
+  Definition legacy_parse_args_f (ps : pstate) (a : str) (noopt : bool)
              (amm : option (list (option bool))) (pos : nat) : lres (list (option node) * nat) :=
     match amm with
-    | Some l => if Nat.eqb (length l) (length a) then legacy_args_loop ps noopt amm 0 a pos []
+    | Some l => if Nat.eqb (length l) (length a) then legacy_args_loop_f ps noopt amm 0 a pos []
                 else LExn 5                                                 (* ValueError *)
-    | None => legacy_args_loop ps noopt amm 0 a pos []
+    | None => legacy_args_loop_f ps noopt amm 0 a pos []
     end.
 End Legacy.
+
+(** * The executable legacy entry points: every [run] starts with [parse_fuel s] *)
+Definition legacy_get_latex_nodes (s : str) (tol : bool) (cx : context) :=
+  legacy_get_latex_nodes_f s tol cx (parse_fuel s).
+Definition legacy_get_latex_expression (s : str) (tol : bool) (cx : context) :=
+  legacy_get_latex_expression_f s tol cx (parse_fuel s).
+Definition legacy_get_latex_braced_group (s : str) (tol : bool) (cx : context) :=
+  legacy_get_latex_braced_group_f s tol cx (parse_fuel s).
+Definition legacy_get_latex_environment (s : str) (tol : bool) (cx : context) :=
+  legacy_get_latex_environment_f s tol cx (parse_fuel s).
+Definition legacy_get_latex_maybe_optional_arg (s : str) (tol : bool) (cx : context) :=
+  legacy_get_latex_maybe_optional_arg_f s tol cx (parse_fuel s).
+Definition legacy_args_loop (s : str) (tol : bool) (cx : context) :=
+  legacy_args_loop_f s tol cx (parse_fuel s).
+Definition legacy_parse_args (s : str) (tol : bool) (cx : context) :=
+  legacy_parse_args_f s tol cx (parse_fuel s).
 
 (** * The specification spellings *)
 
